@@ -2,7 +2,7 @@
 import re
 import t2t, corr, semrun, sem
 
-OBLIGATIONS = ['Yalafi.C03_kinds', 'Yalafi.C03_removeLines_kinds']
+OBLIGATIONS = ['Yalafi.C03_kinds', 'Yalafi.C03_removeLines_kinds', 'Yalafi.C03_comments_dropped', 'Yalafi.C03_comment_positions_outside']
 
 MARKUP = re.compile(r'\\[A-Za-z@]+')
 
@@ -68,6 +68,11 @@ def run(ctx):
     n = ctx.scale(900, 25000)
     rng = ctx.rng
     cases = [semrun.make_case(rng) for _ in range(n)]
+    import gen
+    for _ in range(max(30, n // 20)):        # \def with delimited parameters, on purpose
+        ast, r = gen.delim_def_doc(rng)
+        cases.append({'src': r.src(), 'opts': {'lang': '', 'pack': '*', 'dcls': ''}, 'multi': False, 'kind': 'sem', 'ast': ast,
+                      'words': r.words, 'spans': r.spans, 'callspans': r.callspans})
     ctx.stats['_rule'] = ('well-formed G-doc documents with unique literal words (Qxyz); reference word sequence (main flow, then detached '
                           'flows) and hidden-word set computed from the AST by TeX-style substitution; non-trivial = at least 3 expected words')
     results = semrun.run_cases(ctx, cases)
